@@ -364,6 +364,8 @@ def _check_binding(ms, desc_cls, request, numeric, index, b, vars_, query, body_
     top_vars = {n for n in b["tmpl"]["vars"] if "." not in n}
     first = bindings_of(ms)[0]
     first_bound = {n for n in first["tmpl"]["vars"] if "." not in n} | ({first["body"]} if first["body"] not in ("", "*") else set())
+    if first["body"] == "*":
+        first_bound = set(fields)
 
     def bound(name):
         return name in top_vars or b["body"] == "*" or b["body"] == name
